@@ -17,6 +17,8 @@ CLASSES = ['FreeTrans', 'HarmonicVib', 'QRRHOVib', 'EinsteinVib', 'DebyeVib', 'R
            'GasPressureAdj', 'PiecewiseCovEffect', 'CatSite', 'BEP', 'omkmBEP', 'Reaction', 'ChemkinReaction', 'SurfaceReaction',
            'Reactions', 'PhaseDiagram', 'IdealGasEOS', 'vanDerWaalsEOS']
 text_st = st.one_of(st.none(), st.text('abcXYZ 0123-_', min_size=1, max_size=12))
+# notes are documented as "str or dict"; a user dictionary may well have a key called 'class'
+notes_st = st.one_of(text_st, text_st, st.just({'class': 'adsorbate', 'site': 'fcc'}), st.just({'source': 'paper', 'n': 3}))
 elements_st = st.dictionaries(st.sampled_from(['H', 'C', 'O', 'N', 'Pt']), st.integers(1, 6), min_size=1, max_size=3)
 
 
@@ -53,20 +55,20 @@ def obj_desc(draw, cls=None, depth=0):
         d['D0'] = draw(st.one_of(st.none(), st.floats(0, 5)))
     elif cls == 'ConstantMode':
         d['mode'] = draw(gen.constant_desc(name='c'))
-        d['notes'] = draw(text_st)
+        d['notes'] = draw(notes_st)
     elif cls == 'LSR':
         d['mode'] = draw(lsr_st)
-        d['notes'] = draw(text_st)
+        d['notes'] = draw(notes_st)
     elif cls == 'ExtendedLSR':
         n = draw(st.integers(1, 3))
         fl = lambda lo, hi: [draw(st.floats(lo, hi)) for _ in range(n)]
         d.update({'slopes': fl(0, 1), 'dE': fl(-150, 0), 'E_surf': fl(-100, 0), 'E_gas': fl(-100, 0),
-                  'intercept': draw(st.floats(-40, 40)), 'notes': draw(text_st)})
+                  'intercept': draw(st.floats(-40, 40)), 'notes': draw(notes_st)})
     elif cls == 'StatMech':
         d['species'] = draw(gen.statmech_desc(name=draw(gen.name_st)))
         d['elements'] = draw(st.one_of(st.none(), elements_st))
         d['smiles'] = draw(text_st)
-        d['notes'] = draw(text_st)
+        d['notes'] = draw(notes_st)
         d['refs'] = draw(st.one_of(st.none(), st.floats(-10, 10)))
         d['misc'] = [draw(cov_model()) for _ in range(draw(st.sampled_from([0, 0, 1, 2])))]
     elif cls in ('Nasa', 'Nasa9', 'Shomate'):
@@ -75,7 +77,7 @@ def obj_desc(draw, cls=None, depth=0):
         d['species']['phase'] = draw(st.sampled_from([None, 'G', 'S', 'g', 'gas', 'Gas']))
         d['no_P_adj'] = draw(st.sampled_from([False, False, True]))      # the user may switch the pressure adjustment off
         d['elements'] = draw(st.one_of(st.none(), elements_st))
-        d['notes'] = draw(text_st)
+        d['notes'] = draw(notes_st)
         d['smiles'] = draw(text_st)
         d['n_sites'] = draw(st.sampled_from([None, None, 1, 2]))
         d['cat_site'] = draw(st.booleans()) if cls == 'Nasa' else False
@@ -96,7 +98,7 @@ def obj_desc(draw, cls=None, depth=0):
     elif cls in ('BEP', 'omkmBEP'):
         d.update({'slope': draw(st.floats(0, 1)), 'intercept': draw(st.floats(0, 60)), 'name': draw(gen.name_st),
                   'descriptor': draw(st.sampled_from(['delta_H', 'rev_delta_H', 'delta_E', 'products_H'])),
-                  'elements': draw(st.one_of(st.none(), elements_st)), 'notes': draw(text_st),
+                  'elements': draw(st.one_of(st.none(), elements_st)), 'notes': draw(notes_st),
                   'direction': draw(st.sampled_from([None, 'cleavage', 'synthesis']))})
     elif cls in ('Reaction', 'ChemkinReaction', 'SurfaceReaction'):
         names = ['A', 'B', 'C', 'TS'][:draw(st.integers(2, 4))]
@@ -106,7 +108,7 @@ def obj_desc(draw, cls=None, depth=0):
         d['react'] = draw(st.lists(st.tuples(idx, co).map(list), min_size=1, max_size=2))
         d['prod'] = draw(st.lists(st.tuples(idx, co).map(list), min_size=1, max_size=2))
         d['ts'] = draw(st.one_of(st.none(), st.lists(st.tuples(idx, st.just(1.0)).map(list), min_size=1, max_size=1)))
-        d['notes'] = draw(text_st)
+        d['notes'] = draw(notes_st)
         if cls == 'ChemkinReaction':
             d.update({'beta': draw(st.sampled_from([1.0, 0.0, 0.5])), 'is_adsorption': draw(st.booleans()),
                       'sticking_coeff': draw(st.floats(0.1, 1.0))})
